@@ -204,6 +204,7 @@ def check(fx, rep, tier):
                 n_prop += 1
                 propagated = any(a.get("k") == "Match" and "TryDesugar" in a.get("source", "") for a, _ in ps[-3:])
                 is_tail = not any("stmts" in a and k == "stmts" for a, k in ps[-2:])
+                propagated = propagated or T.explicit_err_exit(ps)
                 rep.oblige(propagated or (is_tail and False), "R17.2", f"propagate:{F.strip_generics(caller)}", F.loc(n["span"]), f"`{caller}` does not propagate the result of the VM main loop with `?`")
     rep.floor("R17.2", n_prop, 1, "callers of the VM main loop in the staged API")
 
